@@ -132,6 +132,20 @@ def generate(ctx):
             s = rng.randint(1, L // 2)          # --start alone
         elif r < 0.5:
             e = rng.randint(L // 2, L)          # --end alone
+        # a window bound exactly ON a difference: on the position of an edge query's only difference, and (wr2) on a non-coding
+        # position at which a query written for the purpose differs - the bounds are inclusive for every kind of record
+        go_extra_hot = None
+        wr2 = random.Random(53 * cid + 11)
+        coding = {p for f in feats for p in f.positions()}
+        noncoding = [p for p in range(1, L + 1) if p not in coding]
+        if noncoding and wr2.random() < 0.4:
+            P = wr2.choice(noncoding)
+            t = list(genome)
+            t[P - 1] = wr2.choice([c for c in "ACGT" if c != t[P - 1]])
+            extra_rec = {"name": "nc%d" % cid, "flag": 0, "pos": 0, "cigar": [("M", L)], "seq": "".join(t), "exact": True}
+            recs.append(extra_rec)
+            samb = samgen.render_sam("REF", L, recs, trail=True)
+            s, e = wr2.choice([(-1, P), (P, -1), (P, P), (max(1, P - 3), P), (P, min(L, P + 3))])
         go = {"id": cid, "op": "samvariants", "sam": cm.b64(samb), "ref": cm.b64(refb if from_file else b""), "anno": cm.b64(annob),
               "suffix": suffix, "ref_from_file": from_file, "start": s, "end": e, "append_snps": append, "aggregate": False,
               "threads": 1 if (equalw or longshort) else rng.choice([1, 2, 4])}
